@@ -172,7 +172,7 @@ fn check_hsl(acc: &mut Acc, base: u64, px: &[[f32; 3]]) {
 
 pub fn run(tier: Tier) -> Report {
     let mut rep = Report::new("C17");
-    let n: u64 = tier.pick(256, 1024);
+    let n: u64 = tier.pick(400, 2048);
     let total = n * n * n;
     let d = (n - 1) as f32;
     let acc = par_chunks_varied(total, 1 << 15, |acc, lo, hi| {
